@@ -477,3 +477,47 @@ func rebuildChallenge(r *core.Rand) [][]byte {
 	}
 	return out
 }
+
+// derHeader returns tag and definite length octets for a body of n bytes.
+func derHeader(tag byte, n int) []byte {
+	switch {
+	case n < 0x80:
+		return []byte{tag, byte(n)}
+	case n < 0x100:
+		return []byte{tag, 0x81, byte(n)}
+	case n < 0x10000:
+		return []byte{tag, 0x82, byte(n >> 8), byte(n)}
+	case n < 0x1000000:
+		return []byte{tag, 0x83, byte(n >> 16), byte(n >> 8), byte(n)}
+	}
+	return []byte{tag, 0x84, byte(n >> 24), byte(n >> 16), byte(n >> 8), byte(n)}
+}
+
+// derWrap returns tag{parts...} with a definite length.
+func derWrap(tag byte, parts ...[]byte) []byte {
+	n := 0
+	for _, p := range parts {
+		n += len(p)
+	}
+	out := append(make([]byte, 0, n+6), derHeader(tag, n)...)
+	for _, p := range parts {
+		out = append(out, p...)
+	}
+	return out
+}
+
+// nestedDER returns depth constructed elements of the given tag, each the only content of the one around it, with
+// correct definite lengths: tag{tag{tag{...{}...}}}.
+func nestedDER(depth int, tag byte) []byte {
+	lens := make([]int, depth) // lens[i]: content length of the element at distance i from the innermost
+	total := 0
+	for i := 0; i < depth; i++ {
+		lens[i] = total
+		total += len(derHeader(tag, total))
+	}
+	out := make([]byte, 0, total)
+	for i := depth - 1; i >= 0; i-- {
+		out = append(out, derHeader(tag, lens[i])...)
+	}
+	return out
+}
